@@ -31,11 +31,12 @@ ASSUMPTIONS = [
 ]
 REQUIRED_MONITORS = ["increasing", "inside_limits", "inside_support", "weights_finite_nonneg",
                      "weights_sum_to_one", "proportional_to_density", "degenerate_single_point",
-                     "model_layer_centre_width", "contract_evaluations"]
+                     "model_layer_centre_width", "contract_evaluations", "mesh_is_get_weights_for_this_parameter",
+                     "mesh_inside_parameter_limits"]
 REQUIRED_BUCKETS = {
     "quick": ["type:gaussian", "type:lognormal", "type:schulz", "type:boltzmann", "type:uniform",
               "type:rectangle", "cut:none", "cut:lower", "cut:upper", "cut:both", "relative", "absolute",
-              "degenerate:zero_width", "degenerate:npts<2", "layer:get_mesh", "layer:sasview",
+              "degenerate:zero_width", "degenerate:npts<2", "layer:get_mesh", "layer:sasview", "layer:shared-name-sequence",
               "partype:volume", "partype:orientation"],
 }
 REQUIRED_BUCKETS["thorough"] = REQUIRED_BUCKETS["quick"]
@@ -245,6 +246,11 @@ def gen_cases(tier, seed):
     for m in models:
         cases.append({"id": "layer/" + m, "kind": "layer", "model": m, "seed": seed,
                       "group": "layer/" + m, "cost": 0.3})
+    # identical dispersity settings issued in sequence to every model that shares a parameter name
+    nseq = 6 if tier == "quick" else 60
+    for k in range(nseq):
+        cases.append({"id": "shared/%02d" % k, "kind": "shared", "k": k, "seed": seed, "group": "shared/%02d" % k,
+                      "cost": 2.0})
     if tier == "thorough":
         cases.append({"id": "suite/under-contract", "kind": "suite", "group": "suite", "cost": 40})
     return cases
@@ -390,6 +396,78 @@ def run_layer(case, rec):
         rec.set_shape((name, "no dispersible parameter"), False)
 
 
+def run_shared(case, rec):
+    """The mesh handed on by get_mesh / SasviewModel must be exactly what get_weights returns for *this*
+    parameter's limits and width convention, whatever was requested before from other models."""
+    from sasmodels import core as sascore, direct_model, sasview_model, weights
+    rng = core.rng_for(case["seed"], PROP, "shared", case["k"])
+    byname = {}
+    for m in sorted(sascore.list_models()):
+        info = sascore.load_model_info(m)
+        for p in info.parameters.call_parameters:
+            if p.polydisperse:
+                byname.setdefault(p.name, []).append((m, info, p))
+    names = sorted(n for n, v in byname.items() if len({tuple(x[2].limits) for x in v}) > 1)
+    rec.observe(shared_names_with_different_limits=names[:12])
+    for name in names:
+        entries = byname[name]
+        dist = TYPES[int(rng.integers(len(TYPES)))]
+        if entries[0][2].type == "orientation" and dist in ("lognormal", "schulz"):
+            dist = "gaussian"
+        npts = int(rng.integers(5, 40))
+        nsig = float(rng.uniform(2.0, 4.0))
+        los = [e[2].limits[0] for e in entries if np.isfinite(e[2].limits[0])]
+        his = [e[2].limits[1] for e in entries if np.isfinite(e[2].limits[1])]
+        # a value close to the tightest lower limit, and a wide distribution, so that the limits matter
+        value = (max(los) if los else 1.0) + float(rng.uniform(0.05, 2.0))
+        if his:
+            value = min(value, min(his)*0.95)
+        if value == 0:
+            value = 0.5
+        width = float(rng.uniform(0.2, 0.6)) if entries[0][2].relative_pd else float(rng.uniform(5, 40))
+        order = rng.permutation(len(entries))
+        for k in order:
+            m, info, p = entries[k]
+            lo, hi = p.limits
+            if not (lo <= value <= hi):
+                continue
+            pars = {p.name: value, p.name + "_pd": width, p.name + "_pd_n": npts,
+                    p.name + "_pd_nsigma": nsig, p.name + "_pd_type": dist}
+            _state["current"] = rec
+            try:
+                mesh = direct_model.get_mesh(info, pars, dim="2d")
+                exp_v, exp_w = weights.get_weights(dist, npts, width, nsig, value, p.limits, p.relative_pd)
+            finally:
+                _state["current"] = None
+            idx = [q.name for q in info.parameters.call_parameters].index(p.name)
+            val, pts, wts = mesh[idx]
+            ok = (np.array_equal(np.asarray(pts), exp_v) and np.array_equal(np.asarray(wts), exp_w))
+            rec.check("mesh_is_get_weights_for_this_parameter", ok,
+                      {"model": m, "parameter": p.name, "limits": p.limits, "relative": p.relative_pd,
+                       "settings": pars, "points": np.asarray(pts)[:8], "expected_points": exp_v[:8],
+                       "npoints": [len(pts), len(exp_v)]})
+            inside = bool(np.all(np.asarray(pts) >= lo) and np.all(np.asarray(pts) <= hi))
+            rec.check("mesh_inside_parameter_limits", inside,
+                      {"model": m, "parameter": p.name, "limits": p.limits, "points": np.asarray(pts)[:8]})
+            rec.set_shape((m, p.name, dist, npts, "shared"), True)
+            rec.bucket("layer:shared-name-sequence")
+            # same request through the SasView wrapper
+            Model = sasview_model._make_standard_model(m)
+            mm = Model()
+            mm.setParam(p.name, value)
+            for attr, v in ((".width", width), (".npts", npts), (".nsigmas", nsig), (".type", dist)):
+                mm.setParam(p.name + attr, v)
+            _state["current"] = rec
+            try:
+                val2, pts2, wts2 = mm._get_weights(p)
+            finally:
+                _state["current"] = None
+            rec.check("mesh_is_get_weights_for_this_parameter",
+                      np.array_equal(np.asarray(pts2), exp_v) and np.array_equal(np.asarray(wts2), exp_w),
+                      {"model": m, "parameter": p.name, "via": "SasviewModel", "points": np.asarray(pts2)[:8],
+                       "expected_points": exp_v[:8]})
+
+
 def run_suite(case, rec):
     """The repository's own tests with the contract switched on (thorough)."""
     import subprocess, os, sys, json, tempfile
@@ -416,6 +494,8 @@ def run_case(case, rec):
         run_direct(case, rec)
     elif case["kind"] == "layer":
         run_layer(case, rec)
+    elif case["kind"] == "shared":
+        run_shared(case, rec)
     else:
         run_suite(case, rec)
 
